@@ -300,9 +300,54 @@ Proof.
 Qed.
 Print Assumptions C13_kernel_readers.
 
+(* 22. the container writers as written in the source, up to their element loop (the length limit, the type tag, the
+       length written through serialize_value -> serialize_int), as functions of len(value): what they write is
+       exactly the header the model's encoder puts in front of the encoded elements, and they refuse exactly the
+       lengths the model refuses — list, tuple, set and dict *)
+Theorem C13_kernel_containers : forall (fc : fconv) (reg : registry),
+  (forall l, match SerKernels.gen_serialize_seq_header (len l) with
+             | Ok hd => enc fc reg (VList l) = (dos body <- mapM (enc fc reg) l; SOk (hd ++ concat body))
+                        /\ enc fc reg (VTuple l) = (dos body <- mapM (enc fc reg) l; SOk (hd ++ concat body))
+             | Err e => e = EValue /\ enc fc reg (VList l) = SErr (SE EValue) /\ enc fc reg (VTuple l) = SErr (SE EValue)
+             end) /\
+  (forall l, match SerKernels.gen_serialize_set_header (len l) with
+             | Ok hd => enc fc reg (VSet l) = (dos body <- mapM (enc fc reg) l; SOk (hd ++ concat body))
+             | Err e => e = EValue /\ enc fc reg (VSet l) = SErr (SE EValue)
+             end) /\
+  (forall kv, match SerKernels.gen_serialize_map_header (len kv) with
+              | Ok hd => enc fc reg (VDict kv) =
+                         (dos body <- mapM (fun p => let '(k, x) := p in dos a <- enc fc reg k; dos b <- enc fc reg x; SOk (a ++ b)) kv;
+                          SOk (hd ++ concat body))
+              | Err e => e = EValue /\ enc fc reg (VDict kv) = SErr (SE EValue)
+              end).
+Proof.
+  intros fc reg. split; [exact (SerKernelsP.gen_seq_header_enc fc reg)|].
+  split; [exact (SerKernelsP.gen_set_header_enc fc reg)|exact (SerKernelsP.gen_map_header_enc fc reg)].
+Qed.
+Print Assumptions C13_kernel_containers.
+
+(* 23. the length guards of the five length-prefixed decoders as written in the source (the statements between
+       `length = deserialize_value(...)` and the first use of length: not an int -> TypeError, above the limit ->
+       ValueError, INCLUSIVE upper bound, no lower bound) are the guard of the model's dec_len, which is "decode a
+       value, then that guard" *)
+Theorem C13_kernel_length_guards :
+  ((forall b n, SerKernels.gen_deserialize_string_guard b n = SerKernelsP.guard_spec MAXB b n) /\
+   (forall b n, SerKernels.gen_deserialize_bytes_guard b n = SerKernelsP.guard_spec MAXB b n) /\
+   (forall b n, SerKernels.gen_deserialize_map_guard b n = SerKernelsP.guard_spec MAXA b n) /\
+   (forall b n, SerKernels.gen_deserialize_seq_guard b n = SerKernelsP.guard_spec MAXA b n) /\
+   (forall b n, SerKernels.gen_deserialize_set_guard b n = SerKernelsP.guard_spec MAXA b n)) /\
+  (forall (sub : M value) cap s, dec_len sub cap s = mbind sub (SerKernelsP.guard_M (SerKernelsP.guard_spec cap)) s).
+Proof. split; [exact SerKernelsP.gen_guards|exact SerKernelsP.dec_len_is_guard]. Qed.
+Print Assumptions C13_kernel_length_guards.
+
 (* the translated source on the width boundaries: -129 takes two bytes, 2^63 is refused, id 11 reads a float32 *)
 Example ex_kernel_int :
   SerKernels.gen_serialize_int (-129) = Ok [x00; x04; xff; x7f] /\
   SerKernels.gen_serialize_int (2 ^ 63) = Err EStruct /\
-  StructPack.dict_get SerKernels.gen_deserialize_types 11 = Some (StructPack.RUnpack StructPack.Ff 4).
-Proof. repeat split. Qed.
+  StructPack.dict_get SerKernels.gen_deserialize_types 11 = Some (StructPack.RUnpack StructPack.Ff 4) /\
+  SerKernels.gen_serialize_seq_header 16384 = Ok [x00; x10; x00; x04; x40; x00] /\
+  SerKernels.gen_serialize_seq_header 16385 = Err EValue /\
+  SerKernels.gen_deserialize_seq_guard true 16384 = Ok 16384 /\
+  SerKernels.gen_deserialize_seq_guard true 16385 = Err EValue /\
+  SerKernels.gen_deserialize_bytes_guard true (-1) = Ok (-1).
+Proof. repeat split; vm_compute; reflexivity. Qed.
